@@ -418,6 +418,30 @@ func ruleRefcountPairing() check.Rule {
 					}
 				}
 			}
+			// every return that follows the increment hands back the teardown holding the decrement
+			if okDec && len(inc) == 1 {
+				bad := token.NoPos
+				for _, tr := range sc.Teardowns {
+					if tr.Expr == nil || tr.Expr.Pos() < inc[0].Pos() || tr.Expr.Pos() < sc.Lit.Pos() || tr.Expr.End() > sc.Lit.End() {
+						continue
+					}
+					if innermostFunc(m, p, tr.Expr) != ast.Node(sc.Lit) {
+						continue
+					}
+					has := false
+					if tr.Val != nil && tr.Val.Lit != nil {
+						has = tr.Val.Lit.Pos() <= dec[0].Pos() && dec[0].End() <= tr.Val.Lit.End()
+					}
+					if !has {
+						bad = tr.Expr.Pos()
+					}
+				}
+				if bad != token.NoPos {
+					c.Violation(key+"/decrement-on-every-return", bad, "after the reference count has been incremented this return hands back a teardown that does not decrement it: the count never reaches zero again, the source stays subscribed after the last subscriber left and later subscribers join the old execution")
+				} else {
+					c.OK(key+"/decrement-on-every-return", inc[0].Pos(), "every return after the increment hands back the decrementing teardown")
+				}
+			}
 			if okDec {
 				c.OK(key+"/decrement", dec[0].Pos(), "one unconditional decrement per unsubscription, under mu, in the teardown")
 			} else {
@@ -922,6 +946,62 @@ func ruleResetReleases() check.Rule {
 					}
 					return true
 				})
+				// the decision to install a fresh subject is the configuration's alone
+				if okAdd && addCall != nil {
+					lit := ast.Unparen(addCall.Args[0]).(*ast.FuncLit)
+					foreign := token.NoPos
+					var visit func(n ast.Node, conds []ast.Expr)
+					visit = func(n ast.Node, conds []ast.Expr) {
+						ast.Inspect(n, func(y ast.Node) bool {
+							switch z := y.(type) {
+							case *ast.IfStmt:
+								if z.Init != nil {
+									visit(z.Init, conds)
+								}
+								visit(z.Body, append(append([]ast.Expr{}, conds...), z.Cond))
+								if z.Else != nil {
+									visit(z.Else, append(append([]ast.Expr{}, conds...), z.Cond))
+								}
+								return false
+							case *ast.AssignStmt:
+								for _, l := range z.Lhs {
+									if fs := fieldSelOf(rinfo, l, rv); fs != nil && fs.Sel.Name == "subject" {
+										for _, cond := range conds {
+											ast.Inspect(cond, func(w ast.Node) bool {
+												switch a := w.(type) {
+												case *ast.CallExpr:
+													foreign = a.Pos()
+													return false
+												case *ast.SelectorExpr:
+													// s.config.X
+													if inner, ok := ast.Unparen(a.X).(*ast.SelectorExpr); ok {
+														if fs := fieldSelOf(rinfo, inner, rv); fs != nil && fs.Sel.Name == "config" {
+															return false
+														}
+													}
+													foreign = a.Pos()
+													return false
+												case *ast.Ident:
+													if _, isVar := rinfo.Uses[a].(*types.Var); isVar {
+														foreign = a.Pos()
+													}
+												}
+												return true
+											})
+										}
+									}
+								}
+							}
+							return true
+						})
+					}
+					visit(lit.Body, nil)
+					if foreign != token.NoPos {
+						c.Violation("ro.connectableObservableImpl.ConnectWithContext/reset-decided-by-config", foreign, "the decision to install a fresh subject on disconnection reads something else than the configuration: with ResetOnDisconnect set, a disconnection that leaves the subject open keeps it, observers of the previous connection keep receiving and a replaying connector replays the previous connection's values")
+					} else {
+						c.OK("ro.connectableObservableImpl.ConnectWithContext/reset-decided-by-config", lit.Pos(), "the fresh subject is installed under the configuration flag alone")
+					}
+				}
 				if okAdd && subscribeCall != nil && addCall != nil && !pathsPassAfter(fd.Body, subscribeCall, func(nd ast.Node) bool { return nd.Pos() <= addCall.Pos() && addCall.End() <= nd.End() }) {
 					c.Violation("ro.connectableObservableImpl.ConnectWithContext/reset-on-disconnect", addCall.Pos(), "after the source has been subscribed some path returns without registering the teardown that installs a fresh subject: for a source that terminates synchronously the old (terminated) subject is kept, and the next Connect feeds a dead subject")
 				} else if okAdd {
@@ -1035,7 +1115,7 @@ func C11() *check.Property {
 		Title:    "Sharing keeps one upstream subscription and follows the reference count",
 		Patterns: CorePatterns,
 		Scope:    []string{ro},
-		Rules:    []check.Rule{ruleShareGuarded(), ruleSingleConnect(), ruleRefcountPairing(), ruleResetBeforeTerminal(), ruleResetReleases(), ruleConnectableGuarded(), ruleShareReplayConfig()},
+		Rules:    []check.Rule{ruleShareGuarded(), ruleSingleConnect(), ruleRefcountPairing(), ruleResetBeforeTerminal(), ruleResetReleases(), ruleConnectableGuarded(), ruleShareReplayConfig(), ruleSubjectDelivers()},
 		Explanation: "Structural clauses only; event histories are NOT decided. The discipline that makes 'at most one live upstream subscription' true is checked: Share's connection state (subject, upstream subscription, reference count) is only touched under its mutex, " +
 			"with the 'requires lock' closures inferred from their call sites (lock-set data-flow); the upstream subscribe site is confined to the path on which a new subject was installed; the reference count is incremented/decremented exactly once per subscription/unsubscription under the mutex " +
 			"and the zero test follows the decrement in the same region; the connectable observable subscribes its source under its mutex only when no live connection exists, and its mutable fields are guarded; ShareReplay's configuration is what its name says.",
